@@ -46,7 +46,7 @@ def run_case(case):
     conf, prop, phase, eps = case['conf'], case['prop'], case['phase'], case['eps']
     H = min(conf, prop)
     out = []
-    sim = Sim(hold_time=conf, keep_alive_time=max(1, conf // 3))
+    sim = Sim(hold_time=conf, keep_alive_time=case.get('conf_ka', 60))
     r = sim.reactor
     c = ss.connect(sim)
     r.settle(fire_due=True)
@@ -186,7 +186,7 @@ GAPS = ['H-e', 'H', 'H+e', 'H/3-e', 'H/3', 'H/3+e', '0', 'small', '2H/3', 'H/2']
 arrival = st.tuples(st.sampled_from(GAPS + ['H-e', 'H', '2H/3', 'H/2']), st.sampled_from(['K', 'U']),
                     st.sampled_from(['msg', 'timer'])).map(list)
 case_strategy = st.fixed_dictionaries({
-    'conf': st.sampled_from(HOLDS), 'prop': st.sampled_from(HOLDS),
+    'conf': st.sampled_from(HOLDS), 'prop': st.sampled_from(HOLDS), 'conf_ka': st.sampled_from([60, 60, 1, 7, 600]),
     'phase': st.sampled_from(['est', 'est', 'est', 'est', 'opensent', 'openconfirm']),
     'eps': st.sampled_from([0.001, 1.0]),
     'schedule': st.one_of(st.lists(arrival, max_size=8), st.lists(arrival, min_size=15, max_size=30))})
@@ -217,7 +217,8 @@ def run_shard(spec, seed, col, tier):
                 for phase in ('est', 'opensent', 'openconfirm'):
                     for sc in (scheds if phase == 'est' else [[]]):
                         for eps in (0.001, 1.0):
-                            case = {'conf': conf, 'prop': prop, 'phase': phase, 'eps': eps, 'schedule': sc}
+                            case = {'conf': conf, 'prop': prop, 'phase': phase, 'eps': eps, 'schedule': sc,
+                                    'conf_ka': 60 if eps == 1.0 else 600}
                             res = run_case(case)
                             col.case(case, nontrivial(case), labels=['grid', 'phase:' + phase])
                             for sig, detail in res:
